@@ -489,6 +489,100 @@ def c14(ctx):
                   cov, xv)
 
 
+def c19(ctx):
+    """Worlds driven concurrently from goroutines under the race detector; each world must behave as if alone."""
+    h = build_harness(ctx)
+    hr = build_harness(ctx, 'verif', race=True)
+    n = 96 if ctx.quick else 960
+    traces = []
+    trace, sched = gen_traces(ctx, os.path.join(PROF, 'worlds.json'), ctx.seed, n, label='worlds-seq')
+    # split the sequential trace by schedule
+    seq = []
+    for l in open(trace):
+        if '"op":"NewWorld"' in l:
+            seq.append([])
+        seq[-1].append(l)
+    viols = []
+    results = []
+    pairs = []
+    races = 0
+    runs = []
+    for k in ((2, 8, 16) if ctx.quick else (2, 4, 8, 16, 16, 16)):
+        prefix = ctx.path('par-%d-%d' % (k, len(runs)))
+        logp = prefix + '-race'
+        r = subprocess.run([hr, 'worlds', '-in', sched, '-out', prefix, '-k', str(k)],
+                           env=dict(os.environ, GORACE='halt_on_error=0 log_path=%s' % logp),
+                           stdout=subprocess.PIPE, stderr=subprocess.STDOUT, text=True, timeout=1800)
+        racelogs = [open(f).read() for f in glob.glob(logp + '*')]
+        nr = sum(t.count('WARNING: DATA RACE') for t in racelogs) + r.stdout.count('WARNING: DATA RACE')
+        if r.returncode != 0 and nr == 0:
+            fatal = [l for l in r.stdout.splitlines() if 'fatal error' in l or l.startswith('panic:')]
+            if not fatal:
+                raise Infra('worlds mode failed:\n' + r.stdout[-2000:])
+            viols.append(('runtime fault with %d concurrent worlds: %s' % (k, fatal[0]), dict(mode='worlds', k=k, seed=ctx.seed, fault=fatal[:3])))
+        if nr:
+            races += nr
+            first = (racelogs[0] if racelogs else r.stdout)[:1500]
+            viols.append(('%d data race(s) reported with %d goroutines driving distinct worlds' % (nr, k),
+                          dict(mode='worlds', k=k, seed=ctx.seed, race_report=first)))
+        runs.append(dict(goroutines=k, races=nr))
+        for g in range(k):
+            pf = '%s-%d.ndjson' % (prefix, g)
+            if not os.path.exists(pf):
+                continue
+            # the same schedules, taken from the sequential run
+            sf = pf.replace('.ndjson', '-seq.ndjson')
+            with open(sf, 'w') as f:
+                for i in range(g, len(seq), k):
+                    f.writelines(seq[i])
+            traces.append((pf, sf))
+    def cmp(t):
+        pf, sf = t
+        rc, o = tlc(ctx, 'TraceEq.tla', 'TraceEq.cfg', env={'TRACE': sf, 'TRACE2': pf}, timeout=900)
+        m = re.search(r'<<"RESULT", "(.*)">>', o)
+        if not m:
+            raise Infra('trace comparison failed:\n' + o[-2000:])
+        return json.loads(json.loads('"' + m.group(1) + '"'))
+    cmps = parallel(cmp, traces)
+    vals = parallel(lambda t: validate(ctx, t[0]), traces)
+    for (pf, sf), c, v in zip(traces, cmps, vals):
+        for x in c['violations']:
+            viols.append(('world driven concurrently differs from the same world driven alone: %s at line %d of %s' % (x['check'], x['line'], os.path.basename(pf)),
+                          dict(mode='worlds', trace=os.path.basename(pf), line=x['line'], check=x['check'], seed=ctx.seed)))
+        for x in v['violations']:
+            if x['prop'] != 'DRIFT':
+                viols.append(('concurrently driven world rejected by the sequential specification: %s/%s at line %d' % (x['prop'], x['check'], x['line']),
+                              dict(mode='worlds', trace=os.path.basename(pf), line=x['line'], check=x['check'], seed=ctx.seed)))
+    nlines = sum(c['lines'] for c in cmps)
+    distinct = set()
+    samples = []
+    for l in open(trace):
+        ln = json.loads(l)
+        if ln['op'] != 'NewWorld':
+            distinct.add(digest([ln['op'], ln['api'], ln['args'], ln['res']]))
+        elif len(samples) < 2:
+            samples.append(dict(schedule=ln['args']['name'], comps=ln['args']['comps']))
+    d = os.path.join(VERIF, 'evidence', 'replays')
+    os.makedirs(d, exist_ok=True)
+    for i, (desc, payload) in enumerate(viols[:5]):
+        p = os.path.join(d, 'C19-%d-%d.json' % (ctx.seed, i))
+        json.dump(payload, open(p, 'w'))
+        print('VIOLATION property=C19 replay=%s' % p)
+        print('  ' + desc, flush=True)
+    cov = dict(evaluations=nlines, distinct_nontrivial=len(distinct),
+               rule='%d schedules (worlds that register the same Go types under different ids) are replayed by 2..16 goroutines '
+                    'in parallel, one world per goroutine at a time, under the Go race detector; every concurrently recorded '
+                    'trace is compared by TLC with the trace of the same schedule run alone (TraceEq) and validated against the '
+                    'sequential specification (TraceAbs); a case is a distinct (operation, arguments, outcome) line' % n,
+               samples=samples, runs=runs, data_races=races, traces_validated_against_impl=len(traces), exhaustive=False)
+    write_evidence(ctx, 'exploration', cov,
+                   ['the happens-before race detector reports races among the executed accesses of one parallel run; interleavings are sampled, not enumerated',
+                    'the harness keeps no shared mutable state between goroutines except mutex-protected type tables'],
+                   len(viols))
+    ctx.log('%d parallel traces, %d lines compared, %d data races, %d violations' % (len(traces), nlines, races, len(viols)))
+    return 1 if viols else 0
+
+
 def c04(ctx):
     """Masks and filters: recorded calls on real values, judged by the set semantics."""
     mc = [model_check(ctx, 'MCMasks.tla', 'MCMasks.cfg', timeout=600)]
@@ -568,5 +662,6 @@ PROPS = {
     'C18': lambda ctx: world_check(ctx, rel_C18, [('generic', 200, 2500)], assumptions=A_WORLD,
                                    mcs=[('MCGeneric.tla', 'MCGeneric.cfg', dict(timeout=900))] + mc_abs(ctx),
                                    scenarios=[os.path.join(SCEN, 'D8-generic-query-target-aliasing.ndjson')]),
+    'C19': c19,
     'C20': W(rel_C20, [('base', 60, 1000), ('resources', 140, 1500)]),
 }
